@@ -17,6 +17,14 @@ type GenOpts struct {
 	// case, names that are prefixes of one another, names containing '/', '_', '-', '.', non-ASCII letters
 	// whose case mapping is special, names equal to a signal or type name, unnamed ids).
 	Names bool
+	// Repeats: the receivers / exporters list of a pipeline sometimes names an id it already names once or
+	// twice more (a receiver, an exporter, or a connector on either side; anywhere in the list).  Legal:
+	// validation only rejects repeated processors.
+	Repeats bool
+	// Levels: every supported cell of a connector factory's support matrix, and every signal of the
+	// receiver / processor / exporter factories, declares a stability level drawn from all defined levels
+	// (LevelNames) instead of Stable throughout.
+	Levels bool
 	// Invalid: probability (percent) per connector link of drawing an
 	// unconstrained link (backward, self, unsupported pair) or a half use.
 	Invalid int
@@ -221,6 +229,13 @@ func Gen(t *rapid.T, o GenOpts) Topology {
 		if sameAs != nil && sameAs[i] >= 0 {
 			c.Pairs = append([]string(nil), tp.Connectors[sameAs[i]].Pairs...)
 		}
+		if o.Levels && len(c.Pairs) > 0 {
+			if sameAs != nil && sameAs[i] >= 0 {
+				c.Levels = tp.Connectors[sameAs[i]].Levels // one factory
+			} else {
+				c.Levels = drawLevels(t, "conn-level", c.Pairs)
+			}
+		}
 		c.Forward = rapid.Bool().Draw(t, "forward")
 		if o.Routing {
 			c.Route = pick(t, "route", []string{"", "all", "one", "some", ""})
@@ -331,6 +346,37 @@ func Gen(t *rapid.T, o GenOpts) Topology {
 		}
 	}
 
+	// the same id named again in a list: the same single instance, no additional path
+	if o.Repeats {
+		for i := range tp.Pipelines {
+			pl := &tp.Pipelines[i]
+			if pct(t, "repeat-recv", 20) {
+				pl.Receivers = repeatSome(t, "repeat-recv", pl.Receivers)
+			}
+			if pct(t, "repeat-exp", 20) {
+				pl.Exporters = repeatSome(t, "repeat-exp", pl.Exporters)
+			}
+		}
+	}
+
+	// stability levels of the receiver / processor / exporter factories, per signal
+	if o.Levels {
+		var cells []string
+		for _, ty := range []string{RecvType, ProcType, ExpType} {
+			for _, sig := range signals {
+				cells = append(cells, ty+":"+sig)
+			}
+		}
+		if o.Shared {
+			for _, ty := range []string{SharedRecvType, SharedExpType} {
+				for _, sig := range signals {
+					cells = append(cells, ty+":"+sig)
+				}
+			}
+		}
+		tp.Levels = drawLevels(t, "level", cells)
+	}
+
 	if o.Extensions {
 		nx := rapid.IntRange(0, 4).Draw(t, "next")
 		ids := make([]string, nx)
@@ -370,6 +416,43 @@ func Gen(t *rapid.T, o GenOpts) Topology {
 		}
 	}
 	return tp
+}
+
+// drawLevels draws a stability level for every cell: mostly cell by cell from all defined levels, sometimes
+// one drawn level for all of them.  Cells left at Stable get no entry.
+func drawLevels(t *rapid.T, label string, cells []string) map[string]string {
+	out := map[string]string{}
+	all := ""
+	if pct(t, label+"-uniform", 20) {
+		all = pick(t, label+"-all", LevelNames)
+	}
+	for _, c := range cells {
+		l := all
+		if l == "" {
+			l = pick(t, label, LevelNames)
+		}
+		if l != "Stable" {
+			out[c] = l
+		}
+	}
+	if len(out) == 0 {
+		return nil
+	}
+	return out
+}
+
+// repeatSome inserts one or two more mentions of ids the list already names, anywhere in the list.
+func repeatSome(t *rapid.T, label string, xs []string) []string {
+	if len(xs) == 0 {
+		return xs
+	}
+	n := rapid.IntRange(1, 2).Draw(t, label+"-n")
+	for r := 0; r < n; r++ {
+		id := pick(t, label+"-id", xs)
+		at := rapid.IntRange(0, len(xs)).Draw(t, label+"-at")
+		xs = append(xs[:at:at], append([]string{id}, xs[at:]...)...)
+	}
+	return xs
 }
 
 // intSubset draws a non-empty subset, mostly of one or two elements.
